@@ -55,6 +55,8 @@ fn main() {
         "caches" => drive_caches(&mut cx, &hist, dim),
         "queries" => drive_queries(&mut cx),
         "serde" => drive_serde(&mut cx),
+        "predicates" => vharness::pure::drive_predicates(&mut cx),
+        "measures" => vharness::pure::drive_measures(&mut cx, &hist),
         _ => { eprintln!("unknown family {fam}"); std::process::exit(2); }
     }
     cx.tr.flush();
